@@ -2,10 +2,12 @@
 //! (DESIGN §C43). Fault injection into copies of the test database.
 //!
 //! Every case builds its own temp directory (symlinks to the intact files, a real file for the one
-//! faulted file, an empty `99999.chunk` so that every real chunk counts as immutable), drives every
-//! public reader over it and removes it. Faults that can make the reader size an allocation from
-//! file contents (overwritten offsets, flipped bytes) run in a **worker process** with RLIMIT_AS so
-//! that an allocation failure (which aborts a Rust process) is observed as a failure of that case.
+//! faulted file, an empty `99999.chunk` so that every real chunk counts as immutable), has every
+//! public reader driven over it and removes it. The readers are driven inside long-lived **worker
+//! processes** (one per runner thread, `<exe> --c43-worker`, RLIMIT_AS = 4 GiB): a panic is caught
+//! there per entry point, an allocation failure (which aborts a Rust process) or any other death of
+//! the worker is a failure of the case being served, and so is an entry point that does not come
+//! back within the per-step time limit (the worker is killed and replaced).
 use crate::c42;
 use crate::lightpanic;
 use crate::imm::{self, TempDir, ENTRY};
@@ -19,6 +21,8 @@ use std::path::{Path, PathBuf};
 pub const MINI_BLOCKS: usize = 12;
 const ITEM_CAP: usize = 100_000; // the longest legitimate iterator is a primary index: 21_601 entries
 const WORKER_AS_LIMIT: u64 = 4 << 30;
+/// per reader driven to exhaustion; generous (a loaded machine), intact databases take milliseconds
+const CASE_TIMEOUT_S: u64 = 60;
 
 #[derive(Debug, Clone, Copy, PartialEq, Eq, Serialize, Deserialize)]
 pub enum Target {
@@ -265,10 +269,22 @@ struct Request {
     probes: Vec<Probe>,
 }
 
+/// fnv64 of every genuine block of the three test_data chunks: written once by the check process
+/// (little-endian u64s) and handed to the workers through PV_C43_TRUTH.
+fn load_truth() -> HashSet<u64> {
+    std::env::var("PV_C43_TRUTH")
+        .ok()
+        .and_then(|p| std::fs::read(p).ok())
+        .map(|b| b.chunks_exact(8).map(|c| u64::from_le_bytes(c.try_into().unwrap())).collect())
+        .unwrap_or_default()
+}
+
 /// Entry point of the isolated worker (`<exe> --c43-worker`): serves one request per stdin line
 /// (`Request` as JSON), answering with `STEP <name>` progress lines and one `RESULT <Outcome>` line.
 pub fn worker_main(_args: &[String]) -> ! {
     use std::io::{BufRead, Write};
+    let truth = load_truth();
+    let truth = if truth.is_empty() { None } else { Some(&truth) };
     let lim = libc::rlimit { rlim_cur: WORKER_AS_LIMIT, rlim_max: WORKER_AS_LIMIT };
     unsafe {
         libc::setrlimit(libc::RLIMIT_AS, &lim);
@@ -285,7 +301,7 @@ pub fn worker_main(_args: &[String]) -> ! {
             let _ = writeln!(o, "STEP {s}");
             let _ = o.flush();
         };
-        let out = exercise(&req.dir, &req.name, req.db_level, &req.probes, None, &mut progress);
+        let out = exercise(&req.dir, &req.name, req.db_level, &req.probes, truth, &mut progress);
         let mut o = std::io::stdout().lock();
         let _ = writeln!(o, "RESULT {}", serde_json::to_string(&out).unwrap());
         let _ = o.flush();
@@ -293,25 +309,66 @@ pub fn worker_main(_args: &[String]) -> ! {
     std::process::exit(0)
 }
 
-/// A long-lived worker process owned by one runner thread; respawned after it dies.
+/// A long-lived worker process owned by one runner thread; respawned after it dies or is killed.
 struct Worker {
     child: std::process::Child,
     stdin: std::process::ChildStdin,
-    stdout: std::io::BufReader<std::process::ChildStdout>,
+    stdout: std::process::ChildStdout,
+    buf: Vec<u8>,
+}
+
+enum Line {
+    Text(String),
+    Eof,
+    Timeout,
 }
 
 impl Worker {
-    fn spawn(exe: &Path) -> std::io::Result<Worker> {
+    fn spawn(exe: &Path, truth_file: &Path) -> std::io::Result<Worker> {
         use std::process::Stdio;
         let mut child = std::process::Command::new(exe)
             .arg("--c43-worker")
+            .env("PV_C43_TRUTH", truth_file)
             .stdin(Stdio::piped())
             .stdout(Stdio::piped())
             .stderr(Stdio::piped())
             .spawn()?;
         let stdin = child.stdin.take().unwrap();
-        let stdout = std::io::BufReader::new(child.stdout.take().unwrap());
-        Ok(Worker { child, stdin, stdout })
+        let stdout = child.stdout.take().unwrap();
+        Ok(Worker { child, stdin, stdout, buf: vec![] })
+    }
+
+    /// Next line of the worker's stdout, waiting no longer than until `deadline`.
+    fn read_line(&mut self, deadline: std::time::Instant) -> Line {
+        use std::io::Read;
+        use std::os::fd::AsRawFd;
+        loop {
+            if let Some(i) = self.buf.iter().position(|b| *b == b'\n') {
+                let line: Vec<u8> = self.buf.drain(..=i).collect();
+                return Line::Text(String::from_utf8_lossy(&line[..line.len() - 1]).to_string());
+            }
+            let now = std::time::Instant::now();
+            if now >= deadline {
+                return Line::Timeout;
+            }
+            let ms = (deadline - now).as_millis().min(i32::MAX as u128) as i32;
+            let mut pfd = libc::pollfd { fd: self.stdout.as_raw_fd(), events: libc::POLLIN, revents: 0 };
+            let r = unsafe { libc::poll(&mut pfd, 1, ms.max(1)) };
+            if r == 0 {
+                return Line::Timeout;
+            }
+            if r < 0 {
+                if std::io::Error::last_os_error().kind() == std::io::ErrorKind::Interrupted {
+                    continue;
+                }
+                return Line::Eof;
+            }
+            let mut tmp = [0u8; 8192];
+            match self.stdout.read(&mut tmp) {
+                Ok(0) | Err(_) => return Line::Eof,
+                Ok(n) => self.buf.extend_from_slice(&tmp[..n]),
+            }
+        }
     }
 }
 
@@ -326,14 +383,19 @@ thread_local! {
     static WORKER: std::cell::RefCell<Option<Worker>> = const { std::cell::RefCell::new(None) };
 }
 
-fn run_in_worker(exe: &Path, dir: &Path, name: &str, db_level: bool, probes: &[Probe]) -> Outcome {
-    use std::io::{BufRead, Read, Write};
+fn case_timeout() -> std::time::Duration {
+    let s = std::env::var("PV_C43_TIMEOUT_S").ok().and_then(|v| v.parse().ok()).unwrap_or(CASE_TIMEOUT_S);
+    std::time::Duration::from_secs(s)
+}
+
+fn run_in_worker(exe: &Path, truth_file: &Path, dir: &Path, name: &str, db_level: bool, probes: &[Probe]) -> Outcome {
+    use std::io::{Read, Write};
     use std::os::unix::process::ExitStatusExt;
     let harness_fail = |m: String| Outcome { fails: vec![("harness:worker-io".into(), m)], classes: vec![] };
     WORKER.with(|slot| {
         let mut slot = slot.borrow_mut();
         if slot.is_none() {
-            match Worker::spawn(exe) {
+            match Worker::spawn(exe, truth_file) {
                 Ok(w) => *slot = Some(w),
                 Err(e) => return harness_fail(format!("spawn: {e}")),
             }
@@ -344,15 +406,22 @@ fn run_in_worker(exe: &Path, dir: &Path, name: &str, db_level: bool, probes: &[P
         line.push('\n');
         let sent = w.stdin.write_all(line.as_bytes()).and_then(|_| w.stdin.flush());
         let mut last_step = "?".to_string();
+        let mut timed_out = false;
         if sent.is_ok() {
+            let limit = case_timeout();
+            // the limit applies to each step (a reader driven to exhaustion), not to the whole case
+            let mut deadline = std::time::Instant::now() + limit;
             loop {
-                let mut l = String::new();
-                match w.stdout.read_line(&mut l) {
-                    Ok(0) | Err(_) => break,
-                    Ok(_) => {
-                        let l = l.trim_end();
+                match w.read_line(deadline) {
+                    Line::Eof => break,
+                    Line::Timeout => {
+                        timed_out = true;
+                        break;
+                    }
+                    Line::Text(l) => {
                         if let Some(st) = l.strip_prefix("STEP ") {
                             last_step = st.to_string();
+                            deadline = std::time::Instant::now() + limit;
                         } else if let Some(r) = l.strip_prefix("RESULT ") {
                             return match serde_json::from_str::<Outcome>(r) {
                                 Ok(o) => o,
@@ -363,8 +432,20 @@ fn run_in_worker(exe: &Path, dir: &Path, name: &str, db_level: bool, probes: &[P
                 }
             }
         }
-        // the worker died while serving this request
+        // the worker died, or hangs, while serving this request
         let mut w = slot.take().unwrap();
+        if timed_out {
+            let _ = w.child.kill();
+            let _ = w.child.wait();
+            let step = last_step.split('(').next().unwrap_or("?").to_string();
+            return Outcome {
+                fails: vec![(
+                    format!("does-not-terminate@{step}"),
+                    format!("{last_step} did not finish within {} s (intact databases take milliseconds); worker killed", case_timeout().as_secs()),
+                )],
+                classes: vec![format!("{last_step}:HANG")],
+            };
+        }
         let status = w.child.wait();
         let mut stderr = String::new();
         if let Some(mut e) = w.child.stderr.take() {
@@ -398,8 +479,8 @@ pub struct Ctx {
     paths: Vec<[PathBuf; 3]>,
     probes: Vec<Vec<Probe>>,
     deep_probes: Vec<Vec<Probe>>,
-    truth: HashSet<u64>,
     exe: PathBuf,
+    truth_file: PathBuf,
     _mini_dir: TempDir,
 }
 
@@ -478,10 +559,6 @@ fn apply(ctx: &Ctx, target: Target, fault: &Fault) -> Vec<(FileKind, Option<Vec<
     }
 }
 
-fn needs_isolation(f: &Fault) -> bool {
-    matches!(f, Fault::SetPrimary { .. } | Fault::SetSecondary { .. } | Fault::FlipBytes { .. })
-}
-
 fn fault_class(f: &Fault) -> String {
     match f {
         Fault::None => "fault:none".into(),
@@ -536,12 +613,7 @@ fn check(s: &Session, ctx: &Ctx, c: &Case, obs: &mut Obs) -> Result<(), Fail> {
         probes.extend(ctx.deep_probes[c.target.idx()].iter().cloned());
     }
     let probes = &probes[..];
-    let out = if needs_isolation(&c.fault) {
-        obs.class("isolated-worker");
-        run_in_worker(&ctx.exe, dir.path(), c.target.name(), c.db_level, probes)
-    } else {
-        exercise(dir.path(), c.target.name(), c.db_level, probes, Some(&ctx.truth), &mut |_| {})
-    };
+    let out = run_in_worker(&ctx.exe, &ctx.truth_file, dir.path(), c.target.name(), c.db_level, probes);
     drop(dir);
     for cl in &out.classes {
         obs.class(cl.clone());
@@ -674,8 +746,13 @@ fn setup() -> Result<Ctx, String> {
         vec![exact(&chunks[1][912]), fuzzy(&chunks[0][860])],
         vec![fuzzy(&chunks[1][910])],
     ];
-    let truth = chunks.iter().flatten().map(|b| fnv64(&b.bytes)).collect();
-    Ok(Ctx { files, paths, probes, deep_probes, truth, exe: std::env::current_exe().map_err(|e| e.to_string())?, _mini_dir: mini_dir })
+    let truth_file = mini_dir.path().join("truth.bin");
+    let mut tb = vec![];
+    for b in chunks.iter().flatten() {
+        tb.extend_from_slice(&fnv64(&b.bytes).to_le_bytes());
+    }
+    std::fs::write(&truth_file, tb).map_err(|e| e.to_string())?;
+    Ok(Ctx { files, paths, probes, deep_probes, truth_file, exe: std::env::current_exe().map_err(|e| e.to_string())?, _mini_dir: mini_dir })
 }
 
 pub fn run(s: &Session) {
@@ -687,7 +764,7 @@ pub fn run(s: &Session) {
 
 fn run_inner(s: &Session) {
     s.set_rule("(target chunk, fault, level). Targets: a 12-block consistent prefix of chunk 01285 ('Mini'), and the three \
-        test_data chunks. Faults: every truncation length of each index file and of the Mini chunk file (quick: every 97th \
+        test_data chunks. Faults: every truncation length of each index file and of the Mini chunk file (quick: every 31st \
         length plus all entry boundaries +-1 for the big index files), truncated big chunk files, missing / empty files, \
         overwritten primary offsets (zero, decreasing, equal, unaligned, beyond the secondary file, high bit, max, random) at \
         every position of the Mini primary, overwritten secondary block offsets (zero, decreasing, equal, beyond end of chunk, \
@@ -697,8 +774,8 @@ fn run_inner(s: &Session) {
         database differs from the intact one; distinct by (target, fault, level)");
     s.assume("only absence of panics / aborts / non-termination is asserted; an Ok item that is not a genuine block is recorded \
         as an observation class, not a violation (the statement allows 'errors or fewer blocks' and is silent on contents)");
-    s.assume("offset-overwriting faults run in a worker process with RLIMIT_AS = 4 GiB; a process abort there (allocation \
-        failure) is a failure of the case");
+    s.assume("readers run in worker processes with RLIMIT_AS = 4 GiB; a process abort there (allocation failure) is a failure \
+        of the case, and so is a reader that has not finished 60 s after it was started (PV_C43_TIMEOUT_S overrides)");
     s.assume("the harness is built with overflow-checks = on (DESIGN §1): arithmetic overflow in the readers is a panic");
     let ctx = match setup() {
         Ok(c) => c,
@@ -770,7 +847,7 @@ fn run_inner(s: &Session) {
             let unit = if f == FileKind::Primary { 4 } else { ENTRY };
             let mut lens = std::collections::BTreeSet::new();
             if quick {
-                lens.extend((0..n).step_by(97));
+                lens.extend((0..n).step_by(31));
                 lens.extend(0..n.min(130));
                 lens.extend(n.saturating_sub(130)..n);
                 if f == FileKind::Secondary {
@@ -824,7 +901,7 @@ fn run_inner(s: &Session) {
     s.forall("random-corruption", s.pick(1_200, 40_000), corrupt_case, ck);
 
     for need in ["fault:truncate-primary", "fault:truncate-secondary", "fault:truncate-chunk", "fault:missing-primary", "fault:empty-secondary",
-        "fault:primary-offsets", "fault:secondary-offsets", "isolated-worker", "level:directory", "chunk::read_blocks:ok-then-err", "chunk::read_blocks:open-err"] {
+        "fault:primary-offsets", "fault:secondary-offsets", "level:directory", "chunk::read_blocks:ok-then-err", "chunk::read_blocks:open-err"] {
         s.health(s.class_count(need) > 0, &format!("class never seen: {need}"));
     }
 }
